@@ -145,6 +145,25 @@ def list_step(ctx, prog, fn, direction):
                         val = decide_cmp(d.args[0], fa, fb, case)
                     elif (fa == 'EMPTY') != (fb == 'EMPTY'):
                         val = None
+                if val is None and d.kind != 'bin':
+                    # integer switch: `match index { 0 => .., i => .. }`
+                    fd = lin(prog, fn, d)
+                    if isinstance(fd, dict):
+                        chosen = None
+                        undec = False
+                        for tv, tb in t['targets']:
+                            r = decide_cmp('Eq', fd, {1: tv}, case)
+                            if r is True:
+                                chosen = tb
+                            elif r is None:
+                                undec = True
+                        if chosen is None and not undec:
+                            chosen = t['otherwise']
+                        if chosen is not None and not undec:
+                            for s2 in [chosen]:
+                                edges.add((x, s2))
+                                stack.append(s2)
+                            continue
                 if val is None:
                     if any(s2 not in b.cfg.can_return for s2 in succs):
                         succs = [s2 for s2 in succs if s2 in b.cfg.can_return]
